@@ -52,7 +52,9 @@ func (g *Resource[T]) Remove() {
 //
 // See also [ecs.Resources.Get].
 func (g *Resource[T]) Get() *T {
-	return g.world.Resources().Get(g.id).(*T)
+	// Comma-ok assertion: an absent resource is a nil interface, for which nil is returned.
+	res, _ := g.world.Resources().Get(g.id).(*T)
+	return res
 }
 
 // Has returns whether the world has the resource type.
